@@ -90,6 +90,9 @@ def run(ctx):
     ee = fb.find("interpreter::interpreter::Interpreter::eval_expression")
     vidx = dict((n, i) for i, n in fb.variants("parser::parser::ExpressionBody"))
     d_np = evaltables.rule_call_errors(ctx, "C08-non-procedure") + evaltables.rule_epc(ctx, "C08-non-procedure")
+    # ... and a call whose operator is written as a literal reaches the evaluator as a call (it is not refused while reading)
+    from . import readtables as _rt08
+    _rt08.rule_literal_operators(ctx, "C08-non-procedure")
     def _old_nonproc():
         sw = next(iter(mir.discriminant_switches(ee, "ExpressionBody")), None)
         if not sw:
